@@ -107,6 +107,9 @@ def UnitOk : UnitKey → Prop
   | .base _ => True
   | .derived id => ∃ u ∈ Generated.units, u.id = id
 
+instance (u : UnitKey) : Decidable (UnitOk u) := by
+  cases u <;> unfold UnitOk <;> infer_instance
+
 theorem decUnit_encUnit_base (b : Base) : decUnit (encUnit (.base b)) = some (.base b) := by
   cases b <;> decide
 
@@ -148,14 +151,59 @@ theorem decEntries_map (c : Compound) (h : CompoundOk c) :
     have h2 : CompoundOk c := fun e' he' => h e' (by simp [he'])
     simp [decEntries, decUnit_encUnit _ h1, decState_encState, ih h2]
 
+/-- Conversely, decoding succeeds only if every key is supported. -/
+theorem compoundOk_of_decEntries (c : Compound) (d : Compound)
+    (h : decEntries (c.map (fun e => (encUnit e.1, encState e.2))) = some d) : CompoundOk c := by
+  induction c generalizing d with
+  | nil => intro e he; cases he
+  | cons e c ih =>
+    simp only [List.map_cons, decEntries] at h
+    split at h
+    · rename_i u s c' hu hs hc
+      intro e' he'
+      rcases List.mem_cons.1 he' with rfl | he'
+      · cases hk : e'.1 with
+        | base b => trivial
+        | derived id =>
+          rw [hk] at hu
+          simp only [encUnit, decUnit, str] at hu
+          split at hu
+          · rename_i h'
+            simp only [Bool.and_eq_true, List.any_eq_true, beq_iff_eq] at h'
+            exact h'.2
+          · cases hu
+      · exact ih c' hc e' he'
+    · cases h
+
 theorem decCompound_encCompound (c : Compound) (h : CompoundOk c) :
     decCompound (encCompound c) = some c := by
   simp [encCompound, decCompound, str, decEntries_map c h]
+
+theorem decCompound_encCompound_iff (c : Compound) :
+    decCompound (encCompound c) = some c ↔ CompoundOk c := by
+  refine ⟨fun h => ?_, decCompound_encCompound c⟩
+  simp only [encCompound, decCompound, str, beq_self_eq_true, if_true] at h
+  exact compoundOk_of_decEntries c c h
 
 theorem decConstant_encConstant (c : Constant) (h : CompoundOk c.unit) :
     decConstant (encConstant c) = some c := by
   obtain ⟨src, toks, desc, val, un⟩ := c
   cases src <;>
     simp [encConstant, decConstant, str, unTexts_map, decRat_encRat, decCompound_encCompound _ h]
+
+/-! ## Identifier table -/
+
+theorem find?_id_of_nodup (l : List UnitDef) (h : (l.map (·.id)).Nodup) (u : UnitDef) (hu : u ∈ l) :
+    l.find? (fun v => v.id == u.id) = some u := by
+  induction l with
+  | nil => cases hu
+  | cons a l ih =>
+    simp only [List.map_cons, List.nodup_cons] at h
+    rcases List.mem_cons.1 hu with rfl | hu
+    · simp
+    · have : a.id ≠ u.id := fun e => h.1 (e ▸ List.mem_map.2 ⟨u, hu, rfl⟩)
+      have hb : (a.id == u.id) = false := by simpa using this
+      rw [List.find?_cons, hb]
+      exact ih h.2 hu
 
 end Anything.Cbor
